@@ -47,6 +47,7 @@ import (
 	"github.com/named-data/ndnd/dv/tlv"
 	enc "github.com/named-data/ndnd/std/encoding"
 	"github.com/named-data/ndnd/std/ndn"
+	mgmt "github.com/named-data/ndnd/std/ndn/mgmt_2022"
 	spec "github.com/named-data/ndnd/std/ndn/spec_2022"
 	"github.com/named-data/ndnd/std/security"
 	"github.com/named-data/ndnd/std/utils"
@@ -827,6 +828,52 @@ func deliverOne(b int) bool {
 	return true
 }
 
+// readvertise hands the router the command Interest /localhost/nlsr/rib/<cmd>/<ControlParameters{Name}>/
+// <params-sha256> the way the engine does for the readvertise prefix and reads the status of the
+// ControlResponse it replies with; "" when the status is 200, else " status=<code>".
+func readvertise(nd *dvsim.Node, cmd string, name enc.Name) string {
+	params := &mgmt.ControlParameters{Val: &mgmt.ControlArgs{Name: name}}
+	iname := enc.Name{
+		enc.NewStringComponent(enc.TypeGenericNameComponent, "localhost"),
+		enc.NewStringComponent(enc.TypeGenericNameComponent, "nlsr"),
+		enc.NewStringComponent(enc.TypeGenericNameComponent, "rib"),
+		enc.NewStringComponent(enc.TypeGenericNameComponent, cmd),
+		enc.NewBytesComponent(enc.TypeGenericNameComponent, params.Encode().Join()),
+	}
+	sp := spec.Spec{}
+	ei, err := sp.MakeInterest(iname, &ndn.InterestConfig{MustBeFresh: true, Lifetime: utils.IdPtr(time.Second)}, enc.Wire{}, nil)
+	if err != nil {
+		panic("harness: MakeInterest: " + err.Error())
+	}
+	interest, _, err := sp.ReadInterest(enc.NewWireReader(ei.Wire))
+	if err != nil {
+		panic("harness: ReadInterest: " + err.Error())
+	}
+	if len(interest.Name()) != 6 {
+		panic("harness: readvertise command name has " + strconv.Itoa(len(interest.Name())) + " components")
+	}
+	var reply enc.Wire
+	nd.R.VerifReadvertiseOnInterest(ndn.InterestHandlerArgs{Interest: interest, Reply: func(w enc.Wire) error {
+		reply = w
+		return nil
+	}})
+	if reply == nil {
+		return " status=none"
+	}
+	data, _, err := sp.ReadData(enc.NewWireReader(reply))
+	if err != nil {
+		return " status=undecodable"
+	}
+	res, err := mgmt.ParseControlResponse(enc.NewWireReader(data.Content()), true)
+	if err != nil || res.Val == nil {
+		return " status=unparsable"
+	}
+	if res.Val.StatusCode != 200 {
+		return " status=" + strconv.FormatUint(res.Val.StatusCode, 10)
+	}
+	return ""
+}
+
 func execLog(f []string) string {
 	a := sim.Nodes[0]
 	bOf := func(s string) (int, bool) {
@@ -847,13 +894,15 @@ func execLog(f []string) string {
 		if id < 100 || id >= 100+numApp {
 			return "skip"
 		}
+		// through the REAL readvertiseOnInterest: the command Interest the forwarder's readvertiser sends
+		st := ""
 		if f[0] == "ann" {
-			a.R.VerifPfx().Announce(pfxName(id)) // readvertiseOnInterest "register"
+			st = readvertise(a, "register", pfxName(id))
 		} else {
-			a.R.VerifPfx().Withdraw(pfxName(id)) // readvertiseOnInterest "unregister"
+			st = readvertise(a, "unregister", pfxName(id))
 		}
 		sim.Settle()
-		return dumpPub()
+		return dumpPub() + st
 	case "burst":
 		m := common.Atoi(f[1])
 		if m < 0 || m > 1000 {
